@@ -61,7 +61,7 @@ register("C03", "props.c03", ["ValidaProofs.C03"], 1500, 40000,
 register("C04", "props.c04", ["ValidaProofs.C04"], 1500, 40000,
          "as C03 plus a random datum modifier x multiplicity modifier applied in a random order; distinct = (length, concrete?, "
          "none/one/many, datum modifier, multiplicity modifier); non-trivial = the selection is non-empty")
-register("C05", "props.c05", ["ValidaProofs.C05"], 1500, 40000,
+register("C05", "props.c05", ["ValidaProofs.C05", "ValidaProofs.C05Walk"], 1500, 40000,
          "one case = a rule (path of 0-3 parts, value-kind condition tree of depth<=2, no cast) tested on a document grown along "
          "its path; distinct = (#parts, tested, valid, min(#failures,3), cast) tuples; non-trivial = tested and not valid")
 register("C06", "props.c06", ["ValidaProofs.C06"], 1000, 25000,
@@ -116,7 +116,7 @@ register("C08", "props.c08", ["ValidaProofs.C08"], 600, 12000,
          "40% casts, map-or-list parts with list / map conditions) and 1-3 shared documents, with identity-aware snapshots of "
          "every document, rule, path, part and condition after every call and each call repeated on freshly built objects; "
          "distinct = (#rules, #docs, #calls, casts?); non-trivial = at least three calls")
-register("C18", "props.c18", ["ValidaProofs.C18"], 800, 20000,
+register("C18", "props.c18", ["ValidaProofs.C18", "ValidaProofs.C05Walk"], 800, 20000,
          "one case = schemas S (0-3 rules) and T (1-3 rules), T added to S under 1-3 distinct concrete roots, then a document with "
          "sub-documents at the roots validated with the extended S and compared with S plus T-at-root; T snapshot (identity-aware) "
          "after every addition; distinct = (#S rules, #T rules, #roots, valid); non-trivial = some rule tested")
